@@ -457,6 +457,9 @@ def handleNorm (zs : Zones) (fn : String) (a : Array String) : Option String := 
   | "pub_midnight" =>
       let o ← getObs a 0; let d ← getOptI a[5]!; let tz ← getTzArg zs a[6]!; let now ← getI a[7]!
       pure (exc tokI (midnightPublic (resolveIn zs) now o d tz))
+  | "pub_midnight_dt" =>
+      let o ← getObs a 0; let ds ← getDateSpec zs a[5]!; let tz ← getTzArg zs a[6]!; let now ← getI a[7]!
+      pure (exc tokI (midnightPublicSpec (resolveIn zs) now o ds tz))
   | "pub_period" =>
       -- pub_period <fn> <obs…5> <date|N> <dir> <tz> <now>
       let fn ← (match a[0]! with
